@@ -541,7 +541,7 @@ WS = [0.5, -0.5, 1.0, -1.0, 2.0, 0.25, 1.5, -3.0, 4.0]
 def model_program(rng, small=False):
     for _ in range(50):
         prog = gen_comp.gen_program(rng, max_priors=5 if small else 8, allow_array=False, allow_pow=False,
-                                    allow_tuple=True)
+                                    allow_tuple=True, allow_log=False)  # (exact sums: no NaN-valued relations)
         try:
             H = gen_comp.run_program(prog)
             m = H["root"]
